@@ -6,6 +6,20 @@ CHECKS = [
         "text": "Decides structurally, for every expression tree at once: (D1) every node kind the visitor can accept has all of its child fields visited or constrained on every accepting path, generic_visit tests the whitelist before recursing; (D2) whitelist, callable table and evaluation environment are within the documented table; (D3) compile/eval are dominated by the validation of the same tree, a rejection cannot be swallowed, eval/exec occur only at frozen sites. Together with the stated assumptions this is the whole property (no runtime clause left).",
         "note": "Assumes stdlib ast.NodeVisitor dispatch/generic_visit semantics and that CPython resolves globals only through Name nodes. Does not decide resource exhaustion by accepted expressions.",
     },
+    {
+        "property_id": "C12",
+        "design_ref": "DESIGN.md section 3, C12",
+        "technique": "static analysis: structural rules on the normaliser (operator set, guard-dominated flattening on a CFG, multiset-preservation dataflow, no other reordering, injective dump)",
+        "text": "Decides that the normaliser identifies only trees equal modulo associativity/commutativity of + and *: only Add/Mult select the flatten path; an operand enters the operand list only on a branch where it is not a same-operator BinOp (complete flattening, same operator only); every collected operand is normalised, sorted by its full position-free dump and refolded exactly once (no set/dict/filter/slice on the way); nothing else is sorted, constructed or rewritten; the signature is the position-free dump of the whole normalised tree. With the stated arithmetic assumption this gives both directions of the property; no expression is evaluated.",
+        "note": "Assumes + and * are associative/commutative over numbers in exact arithmetic and no other operator of the grammar is; ast.dump(include_attributes=False) injective modulo positions. Non-numeric operands are outside the statement.",
+    },
+    {
+        "property_id": "C14",
+        "design_ref": "DESIGN.md section 3, C14",
+        "technique": "static analysis: lockset discipline with implicit-insert modelling, entry-stability (no removal while a publisher holds an entry), check-then-act atomicity, occurrence counting on a CFG, guard dominance for routing",
+        "text": "Decides for every schedule at once the structural conditions of exactly-once, in-order delivery: inserting accesses to the shared channel map (incl. defaultdict misses) hold the map lock; the map is iterated over a snapshot; entries are never removed/replaced while a publisher may hold them; subscriptions alias the live map; consumer test+pop are one critical section under the channel's own lock; opposite deque ends; each popped message is yielded exactly once and only popped messages are yielded; pop and yield are dominated by fnmatch(channel, pattern).",
+        "note": "Assumes GIL atomicity of single dict/deque C calls and that a defaultdict miss runs its Python factory non-atomically. Liveness is not decided. No thread is ever run.",
+    },
 ]
 _TODO = "check not built yet in this session (planned: DESIGN.md section 3); not claimed until its rules run clean and fire on their variants"
 NOT_APPLICABLE = [
